@@ -16,7 +16,7 @@ LEVELS = {
     "C01": dict(category="other",
                 text="Mixed. PROVED unbounded (T1, loop invariants over an abstract Binner contract, any number of items/bins, opaque items): greedy and round-robin return exactly numbins bins holding every item exactly once. "
                      "PROVED for all values at bounded shape (T2, the real search code on every path): complete greedy x 3 objectives (n<=4, k<=3; the shape n=4,k=3 only in the thorough tier), CKK (n<=4), DP x 3 objectives (n<=3), CBLDM (n<=4) return a non-missing result that is a partition into the requested number of bins. "
-                     "kk and multifit (2 iterations) at n<=3 (T2); complete greedy under all 16 switch combinations x 3 objectives at n<=4 in the thorough tier (5 combinations in quick). "
+                     "multifit: PROVED unbounded (T1, any number of items, symbolic numbins, loop invariant of the bisection): every item exactly once and never more than numbins bins - modular over first_fit.online's contract, with ONE TRUSTED THEOREM (Coffman-Garey-Johnson: first-fit-decreasing with capacity >= max(2*sum/numbins, largest item) needs <= numbins bins) for the initial capacity; kk and multifit (2 iterations) also at n<=3 (T2, no theorem); complete greedy under all 16 switch combinations x 3 objectives at n<=4 in the thorough tier (5 combinations in quick). "
                      "BOUNDED STAND-IN only (T3): snp, rnp, ilp (its copies clause is T2 under C17), larger shapes. rnp with 6-8 bins is a listed known finding.",
                 technique=_T1 + " + " + _T2 + " + " + _T3),
     "C02": dict(category="other",
